@@ -219,6 +219,8 @@ func c08(tier string) []*explore.Scenario {
 		// the context handed to Serve has a deadline itself: later than every caller's, and in the middle of them
 		out = append(out, c08EndToEndS(stream, 0, false, 20000*time.Hour), c08EndToEndS(stream, 500*time.Microsecond, false, 30*time.Minute))
 	}
+	// the same windows with features combined: through a demultiplexer / a proxy with an address-rewriting callback, with stats handlers and interceptors
+	out = append(out, withConfig([]string{"via-rewriting-proxy", "demux+stats2+chain", "stats2+interceptors+services"}, c08EndToEnd(false, 0, false), c08EndToEnd(true, 0, false), c08SharedContext(false, time.Hour, 7*time.Minute, 3))...)
 	// several calls under one context (same absolute deadline), time passing in between
 	for _, stream := range []bool{false, true} {
 		out = append(out, c08SharedContext(stream, 5*time.Second, 400*time.Millisecond, 4), c08SharedContext(stream, time.Hour, 7*time.Minute, 5), c08SharedContext(stream, 300*time.Hour, 31*time.Hour, 4))
